@@ -275,77 +275,169 @@ class Spelling:
         return q + content.replace(q, '\\' + q) + q
 
 
-def render_prefix(prefix):
-    return '' if prefix is None else prefix + '|'
+def hx(s):
+    return '.'.join('%X' % ord(c) for c in s) if s else '-'
 
 
-def render_simple(s, sp):
-    k = s[0]
-    if k == 'type':
-        return render_prefix(s[1]) + s[2]
-    if k == 'id':
-        return '#' + s[1]
-    if k == 'class':
-        return '.' + s[1]
-    if k == 'attr':
-        t = '[' + sp.fill() + render_prefix(s[1]) + s[2] + sp.fill()
-        if s[3] is not None:
-            v = s[4][1] if s[4][0] == 'ident' else sp.string(s[4][1])
-            t += s[3] + sp.fill() + v + sp.fill()
-        return t + ']'
-    if k == 'pc':
-        return ':' + sp.kw(s[1])
-    if k == 'pe2':
-        return '::' + sp.kw(s[1])
-    if k == 'pe1':
-        return ':' + sp.kw(s[1])
-    if k == 'func':
-        t = ':' * s[1] + sp.kw(s[2]) + '(' + sp.fill()
-        for i, a in enumerate(s[3]):
+class Builder:
+    """renders a selector AST under a Spelling and, in parallel, writes the *written selector* (structure +
+    spelling, `Sel` of lean/CssVerif/Model/SelSpec.lean) in the wire format of the driver's `spec` request.
+    White-space/comment runs and functional arguments are cut into tokens by the real tokenizer (`tokenize`)."""
+
+    def __init__(self, sp, tokenize):
+        self.sp, self.tokenize = sp, tokenize
+
+    def fills(self, text):
+        """wire words for a run of white space and comments"""
+        toks = self.tokenize(text) if text else []
+        out = ['%d' % len(toks)]
+        for t in toks:
+            if t[0] not in ('S', 'COMMENT'):
+                raise ValueError('not a filler: %r' % (t,))
+            out.append(('w' if t[0] == 'S' else 'c') + hx(t[1]))
+        return out
+
+    def prefix(self, prefix):
+        if prefix is None:
+            return '', ['pn']
+        if prefix == '*':
+            return '*|', ['pa']
+        if prefix == '':
+            return '|', ['pe']
+        return prefix + '|', ['pq' + hx(prefix)]
+
+    def typesel(self, s):
+        t, w = self.prefix(s[1])
+        return t + s[2], w + (['u'] if s[2] == '*' else ['n' + hx(s[2])])
+
+    def attr(self, s):
+        sp = self.sp
+        f1, f2 = sp.fill(), sp.fill()
+        pt, pw = self.prefix(s[1])
+        text = '[' + f1 + pt + s[2] + f2
+        w = self.fills(f1) + pw + ['n' + hx(s[2])] + self.fills(f2)
+        if s[3] is None:
+            w.append('o-')
+        else:
+            f3, f4 = sp.fill(), sp.fill()
+            if s[4][0] == 'ident':
+                vt, vw = s[4][1], 'vi' + hx(s[4][1])
+            else:
+                vt = sp.string(s[4][1])
+                vw = 'vs' + hx(vt)
+            text += s[3] + f3 + vt + f4
+            w += ['o' + {'=': 'eq', '~=': 'inc', '|=': 'dash', '^=': 'pre', '$=': 'suf', '*=': 'sub'}[s[3]]]
+            w += self.fills(f3) + [vw] + self.fills(f4)
+        return text + ']', w
+
+    def args(self, atoms):
+        sp = self.sp
+        t = sp.fill()
+        for i, a in enumerate(atoms):
             if i:
-                prev = s[3][i - 1]
-                # two words need white space between them; around a sign it is optional
+                prev = atoms[i - 1]
                 t += sp.ws(force=(prev not in '+-' and a not in '+-'))
                 if not sp.minimal and sp.rng.random() < sp.p_c / 2:
                     t += sp.rng.choice(COMMENTS)
             if a[:1] in '"\'':
                 a = sp.string(a[1:-1])
             t += a
-        return t + sp.fill() + ')'
-    if k == 'not':
-        return ':' + sp.kw('not') + '(' + sp.fill() + render_simple(s[1], sp) + sp.fill() + ')'
-    raise ValueError(k)
-
-
-def render_compound(c, sp):
-    parts = []
-    if c['type']:
-        parts.append(render_simple(c['type'], sp))
-    for s in c['simples']:
-        parts.append(render_simple(s, sp))
-    if c['pe']:
-        parts.append(render_simple(c['pe'], sp))
-    t = parts[0]
-    for p in parts[1:]:
-        t += sp.cm() + p
-    return t
-
-
-def render_selector(sel, sp, edges=True):
-    t = ''
-    if edges:
-        t += sp.ws() + sp.cm()
-    for part in sel:
-        if isinstance(part, str):
-            if part == ' ':
-                t += sp.cm() + sp.ws(force=True) + sp.cm()
+        t += sp.fill()
+        toks = self.tokenize(t)
+        w = ['%d' % len(toks)]
+        for typ, val in ((x[0], x[1]) for x in toks):
+            if typ == 'CHAR' and val in '+-':
+                w.append('a' + val)
             else:
-                t += sp.cm() + sp.ws() + part + sp.ws() + sp.cm()
+                w.append({'NUMBER': 'an', 'DIMENSION': 'ad', 'STRING': 'as', 'IDENT': 'ai', 'S': 'aw', 'COMMENT': 'ac'}[typ]
+                         + hx(val))
+        return t, w
+
+    def simple(self, s, neg=False):
+        sp = self.sp
+        k = s[0]
+        if k == 'type':
+            t, w = self.typesel(s)
+            return t, ['T'] + w
+        if k == 'id':
+            return '#' + s[1], ['I' + hx('#' + s[1])]
+        if k == 'class':
+            return '.' + s[1], ['C' + hx(s[1])]
+        if k == 'attr':
+            t, w = self.attr(s)
+            return t, ['A'] + w
+        if k in ('pc', 'pe1'):
+            n = sp.kw(s[1])
+            return ':' + n, ['P0' + hx(n)]
+        if k == 'pe2':
+            n = sp.kw(s[1])
+            return '::' + n, ['P1' + hx(n)]
+        if k == 'func':
+            n = sp.kw(s[2]) + '('
+            at, aw = self.args(s[3])
+            return ':' * s[1] + n + at + ')', ['F%d' % (s[1] - 1) + hx(n)] + aw
+        if k == 'not':
+            n = sp.kw('not') + '('
+            f1, f2 = sp.fill(), sp.fill()
+            at, aw = self.simple(s[1], neg=True)
+            return ':' + n + f1 + at + f2 + ')', ['N' + hx(n)] + self.fills(f1) + aw + self.fills(f2)
+        raise ValueError(k)
+
+    def compound(self, c):
+        sp = self.sp
+        text, w = '', []
+        if c['type']:
+            t, tw = self.typesel(c['type'])
+            text += t
+            w += ['h'] + tw
         else:
-            t += render_compound(part, sp)
-    if edges:
-        t += sp.cm() + sp.ws()
-    return t
+            w += ['h-']
+        parts = c['simples'] + ([c['pe']] if c['pe'] else [])
+        w.append('%d' % len(parts))
+        first = not c['type']
+        for s in parts:
+            cm = '' if first else sp.cm()
+            first = False
+            st, sw = self.simple(s)
+            text += cm + st
+            w += self.fills(cm) + sw
+        return text, w
+
+    def selector(self, sel, edges=True):
+        sp = self.sp
+        lead = (sp.ws() + sp.cm()) if edges else ''
+        text, w = lead, self.fills(lead)
+        ct, cw = self.compound(sel[0])
+        text += ct
+        w += cw
+        w.append('%d' % ((len(sel) - 1) // 2))
+        for i in range(1, len(sel), 2):
+            comb = sel[i]
+            if comb == ' ':
+                pre = sp.cm() + sp.ws(force=True) + sp.cm()
+                text += pre
+                w += self.fills(pre) + ['g-']
+            else:
+                pre, post = sp.cm() + sp.ws(), sp.ws() + sp.cm()
+                text += pre + comb + post
+                w += self.fills(pre) + ['g' + comb] + self.fills(post)
+            ct, cw = self.compound(sel[i + 1])
+            text += ct
+            w += cw
+        trail = (sp.cm() + sp.ws()) if edges else ''
+        text += trail
+        w += self.fills(trail)
+        return text, w
+
+
+def render_selector(sel, sp, edges=True, tokenize=None):
+    """text of the selector under the spelling `sp` (and, with `tokenize`, the wire words of the written selector)"""
+    if tokenize is None:
+        import cssutils.tokenize2
+        tk = cssutils.tokenize2.Tokenizer()
+        tokenize = lambda t: [(x[0], x[1]) for x in tk.tokenize(t)]      # noqa: E731
+        return Builder(sp, tokenize).selector(sel, edges)[0]
+    return Builder(sp, tokenize).selector(sel, edges)
 
 
 # --------------------------------------------------------------------------------------------------
